@@ -193,6 +193,33 @@ def s_scatter(a, idx, vals):
     a[idx] = vals
     return a
 
+def s_masked_sum(y, p):
+    mask = numpy.isnan(p)
+    mask2 = mask.copy()
+    mask2[1:] |= numpy.isnan(p[:-1])
+    ym = numpy.ma.masked_array(y, mask=mask)
+    pm = numpy.ma.masked_array(p, mask=mask2)
+    d1 = numpy.sum(numpy.abs(ym[:-1] - ym[1:]))
+    d2 = numpy.sum(numpy.abs(pm[1:] - ym[1:]))
+    return d1.sum(), d2.sum(), d1 == 0
+
+def s_average(a, w):
+    return numpy.average(a, weights=w), numpy.average(a)
+
+def s_cumsum(a, b):
+    c = numpy.cumsum([0, a, b])
+    return c, c[-1]
+
+def s_hstack_promote(xi):
+    ones = numpy.ones((xi.shape[0], 1))
+    h = numpy.hstack([xi, ones])
+    h[0, 0] = 0.5
+    return h, h[0, 0] * 2
+
+def s_nan_compare(a):
+    v = a[0]
+    return v == 0, v != 0, v < 1, v >= 1
+
 def s_where(a):
     w = numpy.where(a == 0)[0]
     return w, len(w)
@@ -326,9 +353,13 @@ def to_engine(v):
     """concrete Python / numpy input -> executor value"""
     if isinstance(v, numpy.ndarray):
         kind = "bool" if v.dtype == bool else ("int" if numpy.issubdtype(v.dtype, numpy.integer) else "real")
-        arr = NdArr.fresh("in", tuple(int(s) for s in v.shape), kind)
+        has_nan = kind == "real" and bool(numpy.isnan(v).any())
+        arr = NdArr.fresh("in", tuple(int(s) for s in v.shape), kind, has_nan)
         for idx in numpy.ndindex(*v.shape):
             x = v[idx]
+            if has_nan:
+                arr.set(tuple(int(i) for i in idx), Fraction(0) if x != x else Fraction(float(x)), nanval=bool(x != x))
+                continue
             arr.set(tuple(int(i) for i in idx), bool(x) if kind == "bool" else (int(x) if kind == "int" else Fraction(float(x))))
         arr.cell.writes = 0
         return arr
@@ -376,6 +407,11 @@ def inputs():
         "s_negative_fancy": [(numpy.arange(8, dtype=float).reshape(4, 2), A(-1, 0, -4, dt=int)), (numpy.arange(4, dtype=float).reshape(2, 2), A(2, dt=int))],
         "s_scatter": [(A(1, 2, 3, 4), A(3, 0, dt=int), A(9, 8)), (A(1, 2, 3, 4), A(-1, 1, dt=int), A(7, 6))],
         "s_where": [(A(0, 3, 0, 0, 2),), (A(1, 2),)],
+        "s_masked_sum": [(A(1, 3, 2, 5, 4), A(numpy.nan, 1, 3, 2, 5)), (A(1, 3, 2, 5, 4), A(0, 1, numpy.nan, 2, 5)), (A(2, 2, 2), A(1, 2, 3))],
+        "s_average": [(A(1, 2, 4), A(1, 1, 2)), (A(3, -1), A(0.5, 1.5))],
+        "s_cumsum": [(2, 3), (0, 5)],
+        "s_hstack_promote": [(numpy.arange(6).reshape(3, 2),), (numpy.arange(6, dtype=float).reshape(3, 2),)],
+        "s_nan_compare": [(A(numpy.nan, 1),), (A(0, 1),)],
         "s_argmax_rows": [(numpy.array([[0., 1., 0.], [2., 2., 1.], [0., 0., 0.]]),)],
         "s_isclose": [(1.0, 1.0 + 1e-9), (1e-9, 0.0), (1e-7, 0.0), (5.0, 6.0)],
         "s_min_max": [(A(3, -1, 2), numpy.array([[1., 5.], [7., 2.]]))],
